@@ -21,11 +21,14 @@ MUTANTS = [
     ("sv-host-offline-numbered-2", SM, "            return 3\n", "            return 2\n"),
     ("sv-online-local-numbered-6", SM, "            return 4\n", "            return 6\n"),
     ("online-entry-always-local", CS, '        if self._online_control_state == "REMOTE":\n', "        if False:\n"),
+    # ("operator-offline-allowed-from-attempt-online": switch_offline sources + attempt_online) was dropped: since transitions
+    # are serialised (/repo 9bda331) no other thread can request a transition while the machine is in ATTEMPT_ONLINE, the
+    # mutant is equivalent. Before that commit it was CAUGHT (operator-offline@ATTEMPT_ONLINE:state-EQUIPMENT_OFFLINE-...).
     (
-        "operator-offline-allowed-from-attempt-online",
-        CS,
-        '                "switch_offline",\n                [self.online,',
-        '                "switch_offline",\n                [self.attempt_online, self.online,',
+        "s1f17-acked-0-while-attempt-online",
+        SM,
+        "        elif self._control_state.current in [\n            ControlState.ONLINE,",
+        "        elif self._control_state.current == ControlState.ATTEMPT_ONLINE:\n            onlack = 0\n        elif self._control_state.current in [\n            ControlState.ONLINE,",
     ),
     (
         "s1f15-no-offline-event",
